@@ -988,7 +988,10 @@ fn oracle(w: &DlWorld) -> Vec<(String, String)> {
             let linked_step = c.notes.iter().find(|(_, n)| *n == Note::Linked).map(|(s, _)| *s).unwrap_or(0);
             // events the lane sent after this consumer had read `linked`
             let later: Vec<&LOp> = w.sock.events_sent.iter().filter(|(s, _)| *s > linked_step).map(|(_, e)| e).collect();
-            if let Some(last) = later.last() {
+            // (a consumer still waiting for its synced is owed no events yet: that case is reported
+            // by the never-synced law below, not here)
+            let waiting_for_synced = want_sync && !synced_by_quiescence;
+            if let Some(last) = later.last().filter(|_| !waiting_for_synced) {
                 if got_q.last() != Some(last) {
                     add(
                         format!("dl({}): consumer missed the lane's latest event at quiescence ({})", k, if want_sync { "asked for sync" } else { "did not ask for sync" }),
@@ -996,8 +999,14 @@ fn oracle(w: &DlWorld) -> Vec<(String, String)> {
                     );
                 }
             }
-            if want_sync && !synced_by_quiescence && w.sock.requests.iter().any(|(_, kk, _)| kk == "sync") && w.sock.out_queue.is_empty() {
-                add(format!("dl({}): consumer that asked for sync never received synced", k), format!("consumer {}", ci));
+            if want_sync && !synced_by_quiescence && w.sock.out_queue.is_empty() {
+                // classified cause: did any @sync reach the lane after this consumer attached?
+                let sync_after_attach = w.sock.requests.iter().any(|(s, kk, _)| kk == "sync" && *s > att_step);
+                if sync_after_attach {
+                    add(format!("dl({}): consumer that asked for sync never received synced", k), format!("consumer {}: a @sync reached the lane after it attached (step {}) and was answered", ci, att_step));
+                } else if w.sock.requests.iter().any(|(_, kk, _)| kk == "link" || kk == "sync") {
+                    add(format!("dl({}): consumer that asked for sync never received synced (no @sync reached the lane after it attached)", k), format!("consumer {} attached at step {}", ci, att_step));
+                }
             }
         }
         if let Some(us) = w.sock.unlinked_sent {
@@ -1098,12 +1107,12 @@ fn interleavings(scripts: &[Vec<Step>]) -> Vec<Vec<(usize, Step)>> {
 fn scripts(kind: Kind, quick: bool) -> Vec<(Vec<(usize, Step)>, usize)> {
     let mut out = vec![];
     let (l1, l2, l3): (LOp, LOp, LOp) = match kind {
-        Kind::Value => (LOp::Set(Some(101)), LOp::Set(Some(102)), LOp::Set(Some(103))),
-        Kind::Map => (LOp::Upd(1, 101), LOp::Upd(2, 102), LOp::Rem(1)),
+        Kind::Value => (LOp::Set(Some(101)), LOp::Set(Some(10222222)), LOp::Set(Some(3))),
+        Kind::Map => (LOp::Upd(1, 101), LOp::Upd(2, 10222222), LOp::Rem(1)),
     };
     let (c1, c2, c3, c4): (LOp, LOp, LOp, LOp) = match kind {
-        Kind::Value => (LOp::Set(Some(1)), LOp::Set(Some(2)), LOp::Set(None), LOp::Set(Some(4))),
-        Kind::Map => (LOp::Upd(1, 1), LOp::Upd(2, 2), LOp::Rem(1), LOp::Clr),
+        Kind::Value => (LOp::Set(Some(1)), LOp::Set(Some(22222222)), LOp::Set(None), LOp::Set(Some(4))),
+        Kind::Map => (LOp::Upd(1, 1), LOp::Upd(2, 22222222), LOp::Rem(1), LOp::Clr),
     };
     let d1: LOp = match kind {
         Kind::Value => LOp::Set(Some(11)),
@@ -1232,6 +1241,9 @@ fn run_cfgs(ctx: &Ctx, name: &str, cfgs: Vec<Cfg>, bound: u32, max_exec: u64, wa
 pub fn run_main() {
     let ctx = Ctx::from_env("C07");
     if let Some(r) = ctx.replay_request() {
+        if std::env::var("PROBE_LOG").is_ok() {
+            let _ = tracing_subscriber::fmt().with_max_level(tracing::Level::TRACE).without_time().with_target(false).try_init();
+        }
         if r["leg"].as_str().unwrap_or("").starts_with("mapq-") {
             asys::mapq::replay(&ctx, &r);
             ctx.finish("model_checking", "replay");
